@@ -1,4 +1,4 @@
-CONSTANTS Mags = {1, 2} Pages <- PagesA Rows = {1, 2, 24} Cids = {1, 2} Flofs = {1} FaultKinds = {} MaxFaults = 0 MaxPk = 5
+CONSTANTS Mags = {1, 2} Pages <- PagesA Rows = {1, 24} Cids = {1, 2} Flofs = {1} FaultKinds = {} MaxFaults = 0 MaxPk = 5
 SPECIFICATION GSpec
 VIEW gview
 INVARIANT Dump
